@@ -311,6 +311,26 @@ def run(ctx):
                  'brought to its canonical form lets e.g. '
                  '::ffff:169.254.169.254 through' % norm(inner[0].iter),
                  ctx.loc(v, inner[0]))
+    # ... and the deny-list can be walked once per address: when its value
+    # is computed once and kept in a local, it is a collection, not a
+    # one-shot iterator (a generator is exhausted by the first address, so
+    # the second A record of a host is compared with nothing)
+    dnf0 = prog.func(EG + '._denied_networks')
+    one_shot = [x for x in own_nodes(dnf0.node)
+                if isinstance(x, (ast.Yield, ast.YieldFrom))] + \
+               [x for x in own_nodes(dnf0.node) if isinstance(x, ast.Return)
+                and (isinstance(x.value, ast.GeneratorExp) or
+                     (isinstance(x.value, ast.Call) and
+                      U.call_name(x.value) in ('iter', 'map', 'filter',
+                                               'zip', 'chain')))]
+    if inner:
+        fresh = isinstance(inner[0].iter, ast.Call) and \
+            U.call_name(inner[0].iter) == '_denied_networks'
+        r2.check(fresh or not one_shot,
+                 ctx.construct(v, extra='deny-list re-iterable'),
+                 '_denied_networks() yields a one-shot iterator that is '
+                 'kept across addresses: only the first resolved address is '
+                 'compared with the denied networks', ctx.loc(dnf0))
     # every configured entry becomes a network: host bits are tolerated
     # (strict=False), otherwise "10.0.0.1/8" is silently dropped
     dnf = prog.func(EG + '._denied_networks')
@@ -424,6 +444,15 @@ def run(ctx):
             r4.fail('mistral.config :: denied_cidrs %r' % cidr,
                     'invalid CIDR in the default deny-list',
                     'mistral/config.py')
+    # the whole loopback and link-local ranges (RFC 1122 / 3927 / 4291), not
+    # sample addresses of them
+    for req in ('127.0.0.0/8', '::1/128', '169.254.0.0/16', 'fe80::/10'):
+        rn = ipaddress.ip_network(req)
+        r4.check(any(rn.subnet_of(n) for n in nets
+                     if n.version == rn.version),
+                 'mistral.config :: denied_cidrs covers ' + req,
+                 'default deny-list does not cover the whole of %s' % req,
+                 'mistral/config.py')
     for addr in ('127.0.0.1', '127.255.255.254', '::1', '169.254.169.254',
                  '169.254.0.1', 'fe80::1'):
         a = ipaddress.ip_address(addr)
